@@ -31,16 +31,18 @@ MutatedByWriting(f) == f \in {"Encoding", "EncodingStats"}
 \* fields ColumnWriter.reset restores itself
 RestoredByColumnReset(f) == f \in {"EncodingStats", "Encoding"}
 
-VARIABLES live,       \* [Fields -> {"ok", "dirty", "zeroed"}]
+\* file-level key/value metadata: w.metadata starts as the configured pairs; SetKeyValueMetadata appends to it at run time
+VARIABLES fileKV,     \* "ok" (the configured pairs) / "dirty" (pairs set while writing an earlier file)
+          live,       \* [Fields -> {"ok", "dirty", "zeroed"}]
           aliased,    \* set of fields of some committed row group that alias the live struct
           rgs,        \* number of committed row groups kept in w.rowGroups
           open,       \* rows buffered in the open row group
           scalars,    \* "ok" / "dirty": numRows, offsets, statistics, filter length, dictionary, page buffer ...
           hist
-vars == <<live, aliased, rgs, open, scalars, hist>>
-view == <<live, aliased, rgs, open, scalars>>
+vars == <<fileKV, live, aliased, rgs, open, scalars, hist>>
+view == <<fileKV, live, aliased, rgs, open, scalars>>
 
-Init == /\ live = [f \in Fields |-> "ok"] /\ aliased = {} /\ rgs = 0 /\ open = FALSE
+Init == /\ fileKV = "ok" /\ live = [f \in Fields |-> "ok"] /\ aliased = {} /\ rgs = 0 /\ open = FALSE
         /\ scalars = "ok" /\ hist = <<>>
 
 Log(op) == hist' = Append(hist, op)
@@ -48,14 +50,17 @@ Log(op) == hist' = Append(hist, op)
 Write == /\ Len(hist) < MaxOps
          /\ open' = TRUE /\ scalars' = "dirty"
          /\ live' = [f \in Fields |-> IF MutatedByWriting(f) /\ live[f] = "ok" THEN "dirty" ELSE live[f]]
-         /\ UNCHANGED <<aliased, rgs>> /\ Log("write")
+         /\ UNCHANGED <<fileKV, aliased, rgs>> /\ Log("write")
+
+\* Writer.SetKeyValueMetadata
+SetKV == /\ Len(hist) < MaxOps /\ fileKV' = "dirty" /\ UNCHANGED <<live, aliased, rgs, open, scalars>> /\ Log("setkv")
 
 \* writeRowGroup: commit, then ColumnWriter.reset for the next row group
 Flush == /\ Len(hist) < MaxOps /\ open
          /\ rgs' = rgs + 1 /\ open' = FALSE
          /\ aliased' = aliased \cup {f \in Fields : ~ClonedAtCommit(f)}
          /\ live' = [f \in Fields |-> IF RestoredByColumnReset(f) /\ live[f] = "dirty" THEN "ok" ELSE live[f]]
-         /\ scalars' = "ok"
+         /\ scalars' = "ok" /\ UNCHANGED fileKV
          /\ Log("flush")
 
 \* Writer.Reset
@@ -64,13 +69,14 @@ Reset == /\ Len(hist) < MaxOps
                        IF f \in aliased /\ ResetClearsElements(f) THEN "zeroed"      \* format.RowGroup.Reset through the alias
                        ELSE IF RestoredByColumnReset(f) THEN "ok" ELSE live[f]]
          /\ aliased' = {} /\ rgs' = 0 /\ open' = FALSE /\ scalars' = "ok"
+         /\ fileKV' = (IF Fix THEN "ok" ELSE fileKV)          \* as found: reset() leaves w.metadata as it is
          /\ Log("reset")
 
-Next == Write \/ Flush \/ Reset
+Next == Write \/ SetKV \/ Flush \/ Reset
 Spec == Init /\ [][Next]_vars
 
 \* requirement (C17): right after Reset the writer is indistinguishable from a fresh one
 JustReset == Len(hist) > 0 /\ hist[Len(hist)] = "reset"
 ResetIsFresh == JustReset => /\ \A f \in Fields : live[f] = "ok"
-                             /\ scalars = "ok" /\ rgs = 0 /\ ~open
+                             /\ scalars = "ok" /\ rgs = 0 /\ ~open /\ fileKV = "ok"
 =============================================================================
